@@ -34,6 +34,9 @@ impl Known {
         }
         Known { entries }
     }
+    pub fn keys_for(&self, prop: &str) -> Vec<String> {
+        self.entries.iter().filter(|e| e.0 == prop).map(|e| e.1.clone()).collect()
+    }
     pub fn matches(&self, prop: &str, key: &str) -> Option<String> {
         self.entries.iter().find(|e| e.0 == prop && e.1 == key).map(|e| e.2.clone())
     }
